@@ -63,15 +63,19 @@ CHECKS["C07"] = dict(
    text="Machine-checked proof about the framer automaton for all byte streams and all budgets: every burst is a contiguous, "
         "unmodified run of the (zero-padded) input starting at the FIRST window within the prefix budget, ending at the maximum "
         "length or just before the byte that exceeds the invalid budget; one burst per session; abandon after the search length; "
-        "no zero padding once four preamble bytes open the session. Bit-level alignment is tied by differential execution of the "
-        "squelch model and receiver-level runs at all 16 half-symbol phases (not yet a theorem).",
+        "no zero padding once four preamble bytes open the session. Bit level: on a clean header or trailer burst every position that "
+        "is not a byte boundary is >= 7 bit errors from the sync word (finite sweep lifted to a theorem), so with a preamble budget <= 6 "
+        "the squelch cannot (re)synchronise off a byte boundary whatever its other state; the bound is tight (7 is reached). The 16 "
+        "half-symbol phases of real audio are exercised by receiver-level runs (correspondence, not theorem).",
    note=RX_NOTE,
    technique="Coq invariant proof over byte streams + exhaustive reduced-alphabet differential correspondence + reference automaton",
    ref="§5 C07")
 CHECKS["C09"] = dict(
    text="Machine-checked proof on the discrete model for all item streams: every reported burst has 4..252 bytes; a StartOfMessage "
         "event arms the 135 s timer; an armed, elapsed timer fires on any symbol that does not deliver a burst; two consecutive "
-        "symbols never both deliver a burst; the timer is only cleared by an EndOfMessage or re-armed by a newer StartOfMessage. "
+        "symbols never both deliver a burst; the timer is only cleared by an EndOfMessage or re-armed by a newer StartOfMessage; and at "
+        "trace level, for every item stream, an armed timer whose deadline has passed does not survive two further symbols: an "
+        "EndOfMessage event has been emitted or a newer StartOfMessage re-armed it with a later deadline. "
         "Partial: that symbols keep arriving (timing loop) is DSP, validated by >= 140 s runs of ten kinds of following audio. "
         "Two genuine defects were repaired (fix: commits aeba0f2, a2bb3e5).",
    note=RX_NOTE,
@@ -80,8 +84,10 @@ CHECKS["C09"] = dict(
 CHECKS["C13"] = dict(
    text="Machine-checked refinement proof: one next() call delivers exactly the next event of the single pass; any partition into "
         "chunks drained by any number of iterator bindings yields the same events, order, timestamps and final state; an event's "
-        "timestamp equals the samples consumed; timestamps never decrease. Link lifecycle: oracle on every trace; the immediate "
-        "re-sync edge burst->searching is a known finding. Correspondence: five call schedules per audio case on the real receiver.",
+        "timestamp equals the samples consumed; timestamps never decrease. Link lifecycle: for every item stream the link events follow "
+        "no carrier -> searching -> {reading, no carrier}, reading -> burst, burst -> no carrier, plus the single extra edge burst -> "
+        "searching, which does occur (witness stream; known finding F7); the squelch cannot re-synchronise while a burst is read. "
+        "Correspondence: five call schedules per audio case on the real receiver; lifecycle oracle on every trace.",
    note=RX_NOTE,
    technique="Coq refinement proof (process/sched vs run_core) + schedule-differential on the implementation + trace replay",
    ref="§5 C13")
